@@ -115,11 +115,17 @@ def code_case(case):
     else:
         Lm = np.array([[lam.real, -lam.imag], [lam.imag, lam.real]])
         y0 = np.array([1.0, 0.0])
+    ncols = int(case.get("cols", 0))
+    if ncols:
+        # matrix-shaped state: each column is an independent copy of the 2x2 block problem with its own initial vector (an ensemble of trajectories)
+        y0 = np.array([[1.0, 0.5, -1.0], [0.0, 2.0, 0.25]])[:, :ncols].copy()
 
     def f(t, y, **kw):
         return Lm @ y
 
     def jac(t, y, **kw):
+        if ncols:
+            return np.einsum("ik,jl->ijkl", Lm, np.eye(ncols))
         return Lm.copy()
     rhs = de.DiffRHS(f)
     if case["jac"] == "user":
@@ -142,6 +148,23 @@ def code_case(case):
     tn = 0.5 * (tolv + tolv * 1.0)
     amp = 1 + abs(complex(dT)) * np.sum(np.abs(x)) * np.sqrt(2 * s)
     bound = 4 * tn * amp + rb + K * EPS * cond
+    if ncols:
+        if np.shape(y1) != np.shape(y0):
+            r.v("C11/step-vs-R/%s" % case["method"], "computed step agrees with the scheme's stability function", case, observed=dict(shape=list(np.shape(y1))), expected=list(np.shape(y0)))
+            return r
+        y0c = y0[0] + 1j * y0[1]; y1cs = y1[0] + 1j * y1[1]
+        for j in range(ncols):
+            bj = bound * max(1.0, abs(y0c[j]))
+            if abs(y1cs[j]) - abs(y0c[j]) > bj:
+                r.v("C11/step-grows/%s" % case["method"], "an accepted step never increases |y| for Re(lambda) <= 0", dict(case, column=j),
+                    observed=dict(abs_y1=abs(y1cs[j]), abs_y0=abs(y0c[j]), dT=float(dT), z=[z.real, z.imag], bound=bj), expected="|y1| <= |y0|")
+                break
+            if abs(y1cs[j] - R * y0c[j]) > bj:
+                r.v("C11/step-vs-R/%s" % case["method"], "computed step agrees with the scheme's stability function", dict(case, column=j),
+                    observed=dict(y1=[y1cs[j].real, y1cs[j].imag], R_y0=[(R * y0c[j]).real, (R * y0c[j]).imag], err=abs(y1cs[j] - R * y0c[j]), bound=bj, dT=float(dT)), expected="y1 = R(dT*lambda) y0, column by column")
+                break
+        r.out(("code", case["method"], "cols%d" % ncols, case["sign"], "accepted", bool(abs(dT) < abs(h))))
+        return r
     y1c = complex(y1[0], y1[1]) if case["dim"] == 2 else complex(y1[0], 0.0)
     grow = abs(y1c) - 1.0
     if grow > bound:
@@ -162,7 +185,7 @@ def run_case(case):
 
 def run(ctx):
     ctx.rule = ("tables: 16 implicit tableaux x 45 radii (quarter decades 1e-3..1e8) x 65 angles in [pi/2, 3pi/2] + eigenvalues of A + R(inf); "
-                "real code: one real implicit step per (method, radius decade, angle, sign convention, scalar/2x2 block, user/finite-difference Jacobian); "
+                "real code: one real implicit step per (method, radius decade, angle, sign convention, scalar / 2-vector / 2x2 and 2x3 matrix state, user/finite-difference Jacobian); "
                 "distinct = distinct (section, method, dim, sign, accepted/shortened) classes")
     ctx.assumptions += [
         "|R(z)| <= 1 is decided on the declared polar grid; together with 'all non-zero eigenvalues of A have positive real part' and the bound on the imaginary axis / at infinity the maximum principle extends it to the half-plane",
@@ -184,6 +207,10 @@ def run(ctx):
                             continue
                         k += 1
                         cases.append(dict(section="code", method=M.__name__, r=float(rad), theta=float(th), sign=sgn, dim=dim, jac=jc, sample=(k % 97 == 0)))
+                    # matrix-shaped states (2 x 2 and 2 x 3: an ensemble of trajectories stepped together), on a sub-lattice of the radii
+                    if abs(np.log10(rad) % 2) < 1e-9 or not ctx.quick:
+                        for ncols, jc in ((2, "user"), (3, "user")) + (((3, "fd"),) if abs(th - 0.75 * np.pi) < 1e-9 else ()):
+                            cases.append(dict(section="code", method=M.__name__, r=float(rad), theta=float(th), sign=sgn, dim=2, cols=ncols, jac=jc))
     grid.pmap(run_case, cases, ctx, horizon=300)
 
 
